@@ -25,7 +25,7 @@ func runOps(ops string) map[string]string {
 // open-without-deadline on the real breaker: timeout 1000 ms, the probe is admitted at the millisecond of the opening.
 func TestOpenWithoutDeadline(t *testing.T) {
 	r := runOps("case a\ncb.new ec 1000 1 1 0 0\nthread 0 c:1:err\nthread 1 tp\nsched 0 0 0 1 1 1\nresults\nlog\nfinal\n")
-	if r["results"] != "0:[] 1:[t]" || r["final"] != "st=H dl=1000 probe=0 clk=0" {
+	if r["results"] != "0:[] 1:[t]" || r["final"] != "st=H dl=1000 probe=0 clk=0 live=0" {
 		t.Fatalf("finding no longer reproduces: %v", r)
 	}
 }
@@ -35,7 +35,7 @@ func TestOpenWithoutDeadline(t *testing.T) {
 func TestStaleRetryCheck(t *testing.T) {
 	r := runOps("case a\ncb.new ec 10 1 1 0 0\nthread 0 c:1:err\nsched\nsched tick:10\nthread 0 tp\nthread 1 tp c:1:ok c:1:err\n" +
 		"sched 0 0 1 1 1 1 1 1 1 1 1 1 1 1 1 0\nresults\nlog\nfinal\n")
-	if r["results"] != "0:[t] 1:[t]" || r["final"] != "st=H dl=20 probe=0 clk=10" ||
+	if r["results"] != "0:[t] 1:[t]" || r["final"] != "st=H dl=20 probe=0 clk=10 live=0" ||
 		r["log"] != "[C>O@0,O>H@1,H>C@1,C>O@1,O>H@0]" {
 		t.Fatalf("finding no longer reproduces: %v", r)
 	}
@@ -48,5 +48,14 @@ func TestListenerCallsCanReorder(t *testing.T) {
 		"sched 0 0 0 0 1 1 1 1 0\nresults\nlog\nfinal\n")
 	if r["log"] != "[C>O@0,O>H@0,C>O@1,H>C@0]" {
 		t.Fatalf("listener calls no longer arrive in this order: %v", r)
+	}
+}
+
+// A completion under way on the old breaker object across a rule reload opens the OLD object only: the rebuilt (live)
+// breaker is a fresh Closed object and admits the next request by reading Closed (scenario of seeded change C12-r3-3).
+func TestReloadWhileCompletionInFlight(t *testing.T) {
+	r := runOps("case a\ncb.new ec 1000 1 1 0 0\nthread 0 c:1:err\nthread 1 rd:1000:1:2:0:0 tp\nsched 0 0 1 0 0 tick:3 1 1 1\nresults\nlog\nfinal\n")
+	if r["results"] != "0:[] 1:[t]" || r["log"] != "[C>O@0]" || r["final"] != "st=C dl=- probe=0 clk=3 live=1" {
+		t.Fatalf("unexpected: %v", r)
 	}
 }
